@@ -8,15 +8,19 @@ package main
 //	+3  permission pairs: entry → caller.relay → callee.method for all callers × callees × methods
 //	+4  dynamic scripts: entry → relay.dyn → LoadScript → callee.method
 //	+5  safe-marked methods that write / notify / call, via System.Contract.Call, CALLT tokens and native callbacks (safe.go)
-//	+6… random call chains through the relay contracts (entry flags, requested flags, safe/non-safe methods)
+//	+6  permission check of calls made through NEF method tokens (CALLT) for every relay as the caller
+//	+7  callers whose manifest was updated / that were destroyed earlier in the same execution (Domovoi: which manifest counts)
+//	+8… random call chains through the relay contracts (entry flags, requested flags, safe/non-safe methods)
 
 import (
+	"encoding/json"
 	"fmt"
 	"os"
 	"strings"
 
 	"github.com/nspcc-dev/neo-go/pkg/io"
 	"github.com/nspcc-dev/neo-go/pkg/smartcontract/callflag"
+	"github.com/nspcc-dev/neo-go/pkg/smartcontract/manifest"
 	"github.com/nspcc-dev/neo-go/pkg/vm/emit"
 	"github.com/nspcc-dev/neo-go/pkg/vm/stackitem"
 
@@ -291,6 +295,126 @@ func (w *world) permissionPairs(o *hx.Out, k int) {
 	}
 }
 
+// tokenPermissions: entry(All) → caller.ta / caller.ts → CALLT (token flags All) → target.a / target.s: the permission
+// check of callInternal applies to calls made through NEF method tokens exactly as to System.Contract.Call.
+func (w *world) tokenPermissions(o *hx.Out, k int) {
+	w.declare(o)
+	tgt := w.relayByID(tokenTargetID)
+	for _, caller := range w.relays {
+		if caller.id == tokenTargetID {
+			continue
+		}
+		for _, m := range []struct {
+			via, name string
+			safe      bool
+		}{{"ta", "a", false}, {"ts", "s", true}} {
+			bw := io.NewBufBinWriter()
+			emit.AppCall(bw.BinWriter, caller.c.Hash, m.via, callflag.All, []any{})
+			r := w.run(bw.Bytes(), callflag.All)
+			obs := ""
+			switch {
+			case r.panicky:
+				obs = "panic"
+			case strings.Contains(r.msg, "disallowed method call"):
+				obs = "fault:perm"
+			case strings.Contains(r.msg, "invalid call flags") || denied(r.msg):
+				obs = "fault:flags"
+			case !r.halt:
+				obs = "fault:other " + strings.ReplaceAll(r.msg, " ", "_")
+			default:
+				obs = "halt:bad-result"
+				if len(r.result) == 1 {
+					if arr, ok := r.result[0].Value().([]stackitem.Item); ok && len(arr) == 1 {
+						if v, err := arr[0].TryInteger(); err == nil {
+							obs = fmt.Sprintf("halt %d", v.Int64())
+						}
+					}
+				}
+			}
+			o.Line(fmt.Sprintf("tokcall %d %d %s %s", caller.id, tgt.id, m.name, b01(m.safe)), obs)
+			o.Count("tokcall:" + strings.SplitN(obs, " ", 2)[0])
+			entered := treeDepth(r.tree)-1 >= 2
+			if entered && !m.safe && !specCanCall(caller.perms, tgt.id, tgt.groups, m.name) {
+				o.Fail("call-without-permission", k, "relay %d (permissions %s) entered non-safe %s of contract %d (groups %v) through a method token", caller.id, permsString(caller.perms), m.name, tgt.id, tgt.groups)
+			}
+			o.Seen(fmt.Sprintf("tokcall/%d/%s", caller.id, m.name))
+		}
+	}
+}
+
+// updatedCallers: entry(All) → caller.upd(nef, manifest', callee, m) / caller.des(callee, m): the caller has
+// ContractManagement replace its manifest (other permissions) or destroy it, and then calls callee.m. The executing
+// context still carries the old manifest, ContractManagement's storage the new one (or none): callInternal consults
+// the former from Domovoi on, the latter before.
+func (w *world) updatedCallers(o *hx.Out, k int) {
+	w.declare(o)
+	legacy := w.hf < 4
+	for _, cid := range []int{1, 9} {
+		caller := w.relayByID(cid)
+		for _, np := range []struct {
+			name  string
+			perms []aPerm
+			gone  bool
+		}{{"-", nil, false}, {"w:*", []aPerm{{kind: 'w'}}, false}, {"gone", nil, true}} {
+			for _, callee := range []*relayInfo{w.relayByID(2), w.relayByID(6)} {
+				for _, m := range []struct {
+					name string
+					safe bool
+				}{{"a", false}, {"s", true}} {
+					bw := io.NewBufBinWriter()
+					if np.gone {
+						emit.AppCall(bw.BinWriter, caller.c.Hash, "des", callflag.All, callee.c.Hash, m.name)
+					} else {
+						nm := *caller.c.Manifest
+						nm.Permissions = []manifest.Permission{}
+						for _, p := range np.perms {
+							nm.Permissions = append(nm.Permissions, p.real())
+						}
+						mb, err := json.Marshal(&nm)
+						if err != nil {
+							panic(&Failure{Msg: "marshal manifest: " + err.Error()})
+						}
+						nb, _ := caller.c.NEF.Bytes()
+						emit.AppCall(bw.BinWriter, caller.c.Hash, "upd", callflag.All, nb, mb, callee.c.Hash, m.name)
+					}
+					if bw.Err != nil {
+						panic(&Failure{Msg: "emit upd: " + bw.Err.Error()})
+					}
+					r := w.run(bw.Bytes(), callflag.All)
+					obs := "halt"
+					switch {
+					case r.panicky:
+						obs = "panic"
+					case strings.Contains(r.msg, "disallowed method call"):
+						obs = "fault:perm"
+					case !r.halt:
+						obs = "fault:other " + strings.ReplaceAll(r.msg, " ", "_")
+					}
+					o.Line(fmt.Sprintf("updcall %d %s %d %s %s", caller.id, np.name, callee.id, m.name, b01(m.safe)), obs)
+					o.Count(fmt.Sprintf("updcall:%s:%s", map[bool]string{true: "legacy", false: "domovoi"}[legacy], strings.SplitN(obs, " ", 2)[0]))
+					// the property: a non-safe method entered from a deployed contract needs a matching permission of that
+					// contract — of the manifest it runs with, or (read charitably) of the one it has just been given
+					if obs == "halt" && !m.safe {
+						oldOK := specCanCall(caller.perms, callee.id, callee.groups, m.name)
+						newOK := !np.gone && specCanCall(np.perms, callee.id, callee.groups, m.name)
+						if !oldOK && !newOK {
+							key := "call-without-permission:caller-updated"
+							if np.gone {
+								key = "call-without-permission:destroyed-caller"
+							}
+							if legacy {
+								key += "@legacy-hardforks"
+							}
+							o.Fail(key, k, "relay %d (permissions %s, new manifest: %s) entered non-safe %s of relay %d at hardfork level %d", caller.id, permsString(caller.perms), np.name, m.name, callee.id, w.hf)
+						}
+					}
+					o.Seen(fmt.Sprintf("updcall/%d/%s/%d/%s", caller.id, np.name, callee.id, m.name))
+				}
+			}
+		}
+	}
+}
+
 func genChain(r *prng.R, maxDepth int) (int, []hop) {
 	f0 := 15
 	switch r.Intn(4) {
@@ -329,7 +453,7 @@ func chainCases(f *hx.Flags, o *hx.Out, first int) {
 		maxDepth = 6
 	}
 	for _, hf := range levels {
-		span := 6 + nChains
+		span := 8 + nChains
 		wanted := false
 		for j := k; j < k+span; j++ {
 			if f.Want(j) {
@@ -359,10 +483,13 @@ func chainCases(f *hx.Flags, o *hx.Out, first int) {
 			func(k int) { w.permissionPairs(o, k) },
 			func(k int) { w.dynScripts(o, k) },
 			func(k int) { w.safeMarked(o, k) },
+			func(k int) { w.tokenPermissions(o, k) },
+			func(k int) { w.updatedCallers(o, k) },
 		}
 		for _, fn := range fixed {
 			if f.Want(k) {
 				o.Case(k)
+				o.Line(fmt.Sprintf("hf %d", hf), "ok")
 				o.Count(fmt.Sprintf("world:hardfork-level-%d", hf))
 				if err := Try(func() { fn(k) }); err != nil {
 					o.Fail("chain-harness", k, "%v", err)
@@ -375,6 +502,7 @@ func chainCases(f *hx.Flags, o *hx.Out, first int) {
 				continue
 			}
 			o.Case(k)
+			o.Line(fmt.Sprintf("hf %d", hf), "ok")
 			r := prng.ForCase(f.Seed, k)
 			f0, hops := genChain(r, maxDepth)
 			if err := Try(func() {
